@@ -75,6 +75,7 @@ class Check:
         self.extra = {}
         self.nontrivial_keys = set()
         self.exhaustive = True
+        self._slow = []
 
     # ---- accumulation -------------------------------------------------------------------------
     def count(self, key, n=1):
@@ -111,6 +112,9 @@ class Check:
             self.cap(c)
         for k, v in part.get('max', {}).items():
             self.extra[k] = max(self.extra.get(k, v), v)
+        if '_wall' in part:
+            self._slow.append((round(part['_wall'], 1), part.get('_label')))
+            self._slow = sorted(self._slow, reverse=True)[:5]
 
     # ---- finish --------------------------------------------------------------------------------
     def finish(self) -> int:
@@ -163,6 +167,7 @@ class Check:
             cov.setdefault('transitions', cov.get('transitions', 0))
             cov.setdefault('traces_validated_against_impl', cov.get('executions', 0))
         cov['known_finding_cases'] = n_known
+        cov['slowest_units'] = self._slow
         ev = dict(property_id=self.pid, tier=self.tier, seed=int(self.seed), level=self.level, coverage=cov,
                   assumptions=self.assumptions, wall_s=round(time.time() - self.t0, 2), violations=int(n_new))
         os.makedirs(EVIDENCE_DIR, exist_ok=True)
@@ -202,12 +207,30 @@ def _worker_init():
 def _call(args):
     fn, unit = args
     try:
-        return fn(unit)
+        t = time.time()
+        r = fn(unit)
+        if isinstance(r, dict):
+            r['_wall'] = time.time() - t
+            r['_label'] = unit_label(unit)
+        return r
     except HarnessError:
         raise
     except BaseException as e:  # noqa
         raise HarnessError(f"worker crashed on unit {str(unit)[:300]}: {type(e).__name__}: {e}\n"
                            f"{traceback.format_exc()[-3000:]}")
+
+
+def unit_label(unit):
+    if isinstance(unit, dict):
+        d = {k: v for k, v in unit.items() if k in ('kind', 'N', 'depth', 'bm', 'dtype', 'mode', 'name', 'cell')}
+        if 'cfg' in unit and isinstance(unit['cfg'], dict):
+            d['cfg'] = '|'.join(str(v) for v in unit['cfg'].values())
+        if 'prefix' in unit:
+            d['prefix'] = unit['prefix']
+        if 'devsets' in unit:
+            d['ndevsets'] = len(unit['devsets'])
+        return str(d)[:300]
+    return str(unit)[:200]
 
 
 def pmap(fn, units, nproc=None, chunksize=1):
